@@ -43,7 +43,7 @@ Start(s) ==
     /\ now = 0 /\ hist = <<>> /\ stk = <<>> /\ \A n \in Names : ~pod[n].ex /\ pod[n].uid = 0 /\ ~pe[n].ex
     /\ \A e \in Enis : ~eni[e].ex
     /\ Reset(1, pod, pe, [e \in Enis |-> IF e = s.e THEN [ex |-> TRUE, st |-> s.st, inst |-> IF s.st = "InUse" THEN 2 ELSE 0, ours |-> s.ours, created |-> 1] ELSE NoEni])
-    /\ hist' = <<[a |-> "conf", names |-> Cardinality(Names),
+    /\ hist' = <<[a |-> "conf", names |-> Cardinality(Names), eniOnly |-> <<1, 2>>,
                   enis |-> IF s.e = 0 THEN <<>> ELSE <<[e |-> s.e, tag |-> IF s.ours THEN "ours" ELSE "othercluster", age |-> 0, st |-> s.st,
                                                         typ |-> IF s.st = "InUse" THEN "Member" ELSE "Secondary", inst |-> 2]>>]>>
     /\ UNCHANGED <<stk, want>>
@@ -59,7 +59,7 @@ Env ==
           /\ (pe[n].ex /\ HasFixed(pe[n]) => ks[1] # "e")
           /\ PodCreate(now, n, pod[n].uid + 1, node, \E i \in 1..Len(ks) : ks[i] # "e")
           /\ want' = [want EXCEPT ![n] = ks]
-          /\ H([a |-> "pod_create", n |-> n, node |-> node, owner |-> "sts",
+          /\ H([a |-> "pod_create", n |-> n, node |-> node, owner |-> "sts", via |-> IF (pod[n].uid + n + node) % 2 = 0 THEN "node" ELSE "anno",
                 kind |-> [i \in 1..Len(ks) |-> [fixed |-> ks[i] # "e", strat |-> IF ks[i] = "t" THEN "TTL" ELSE IF ks[i] = "n" THEN "Never" ELSE "", ttl |-> IF ks[i] = "t" THEN 400000 ELSE 0]]])
           /\ UNCHANGED stk
     \/ \E n \in Names : EnvTurn /\ ~pod[n].term /\ PodTerm(now, n) /\ H([a |-> "pod_term", n |-> n]) /\ UNCHANGED <<stk, want>>
@@ -85,13 +85,15 @@ Goto(at) == SetTop([Top EXCEPT !.at = at])
 Gate(l) == H([a |-> "gate", l |-> l])
 FaultTurn == ~GenOn \/ Len(hist) % 4 = 0
 Fault(op, nth) == FaultTurn /\ HH([a |-> "fault", op |-> op, nth |-> nth], [a |-> "gate", l |-> IF op \in {"create", "attach", "detach", "delete"} THEN "c" ELSE "w"])
+ReadFault(op) == FaultTurn /\ HH([a |-> "fault", op |-> op, nth |-> 1], [a |-> "gate", l |-> "rp"])
 Same == UNCHANGED <<now, pod, pe, eni, obs, fx, call, made>>
 
 (* ---- pod controller *)
 PcStep ==
     LET f == Top  n == f.n IN
     /\ f.who = "pc" /\ UNCHANGED want
-    /\ \/ /\ f.at = "rp" /\ PodGet(now, f.c, "pc", n, pod[n].ex, pod[n].run) /\ Gate("rp")
+    /\ \/ /\ f.at = "rp" /\ Same /\ ReadFault("get_pod") /\ Goto("ret")
+       \/ /\ f.at = "rp" /\ PodGet(now, f.c, "pc", n, pod[n].ex, pod[n].run) /\ Gate("rp")
           /\ SetTop([f EXCEPT !.p = pod[n], !.at = IF ~pod[n].ex \/ ~pod[n].run THEN "del_rr" ELSE IF pod[n].term THEN "ret" ELSE "cr_rr"])
        \/ /\ f.at = "del_rr" /\ Same /\ Gate("rr")
           /\ LET r == pe[n] IN
@@ -141,6 +143,7 @@ EcStep ==
                        ELSE IF Ph(r) \in {"Bind", "Unbind"} THEN "ret"
                        ELSE IF Ph(r) = "Detaching" THEN "detach"
                        ELSE IF Ph(r) = "Deleting" THEN "w_delete" ELSE "rp"])
+       \/ /\ f.at = "rp" /\ Same /\ (\E op \in {"get_pod", "get_node"} : ReadFault(op)) /\ Goto("ret")
        \/ /\ f.at = "rp" /\ PodGet(now, f.c, "ec", n, pod[n].ex, pod[n].run) /\ Gate("rp")
           /\ SetTop([f EXCEPT !.node = pod[n].node, !.todo = AllocEnis(f.r),
                               !.at = IF ~pod[n].ex \/ (Ph(f.r) = "Binding" /\ ~HasFixed(f.r)) THEN "ret" ELSE "attach"])
@@ -179,6 +182,8 @@ GcrStep ==
           /\ LET r == f.S[f.n] IN
              SetTop([f EXCEPT !.at = IF pod[f.n].ex /\ pod[f.n].run THEN (IF HasFixed(r) THEN "w_seen" ELSE "next")
                                       ELSE IF Ph(r) \in {"Detaching", "Deleting", "Binding"} \/ CodeKeeps(r) THEN "next" ELSE "w_del"])
+       \/ /\ f.at = "rp" /\ Same /\ Goto("next")                                   \* the pod read or the node read fails: nothing is done for this record
+          /\ \E op \in {"get_pod", "get_node"} : ReadFault(op)
        \/ /\ f.at = "w_seen" /\ Gate("w") /\ Goto("next")
           /\ IF pe[f.n].ex THEN PeWrite(now, f.c, "gcr", f.n, [pe[f.n] EXCEPT !.seen = now]) ELSE Same
        \/ /\ f.at = "w_del" /\ Gate("w") /\ Goto("next")
